@@ -180,6 +180,10 @@ def make_scenarios(rng, tier, seed):
         nov = None if c < 0.3 else rng.randrange(0, NFFT)
         if rng.random() < 0.08:
             n = rng.randrange(NFFT // 2 + 1, NFFT + 2)       # at most one segment, zero padded
+        if n > 256:      # keep the number of segments of long records near 60 (the model's DFT is the naive one)
+            min_step = min(NFFT, (n - NFFT) // 60 + 1)
+            if nov is not None and NFFT - nov < min_step:
+                nov = NFFT - min_step
         wk = rng.choice(['hann', 'hann', 'hamming', 'boxcar', 'rand'])
         Fs = rng.choice([1.0, 2.0, 2 * math.pi, 10.0, 0.5, 250.0, rng.uniform(0.1, 100)])
         out.append({'kind': 'welch', 'data': gen_data(nr, nch, n).tolist(), 'NFFT': NFFT, 'nov': nov, 'win': wk,
